@@ -197,7 +197,42 @@ def pre_unparsed_filter(facts, reach):
     return True, "%d call site(s), each behind filter(notation_name.is_some())" % n
 
 
+def pre_eq_entered_by_unit_compare(facts, reach):
+    """The structural-equality cycle (XmlItem::eq -> XmlElement::eq -> children ..) is entered, from the functions that are
+    reachable here, only by `x == Enum::UnitVariant` / `x != Enum::UnitVariant`: the derived eq compares the discriminants
+    first and returns without looking at any payload when one side is a unit variant, so the cycle is never walked."""
+    import e1
+    anchor = facts.fn_opt("xml_info::<XmlItem as std::cmp::PartialEq>::eq")
+    if anchor is None:
+        return False, "XmlItem::eq not found"
+    comp = None
+    for c in e1.recursive_sccs(facts, set(reach) | {anchor["id"]}):
+        if anchor["id"] in c:
+            comp = set(c)
+    if comp is None:
+        return False, "XmlItem::eq is not in a recursion cycle"
+    n = 0
+    for gid in reach:
+        g = facts.fns.get(gid)
+        if g is None or gid in comp or "body" not in g:
+            continue
+        lines = {e.get("line") for e in facts.edges()[gid] if e["to"] in comp}
+        for ln in lines:
+            bins = [m for m in walk(g["body"]) if m.get("k") == "Binary" and m.get("op") in ("==", "!=") and m.get("ln") == ln]
+            def unit(x):
+                while x.get("k") in ("AddrOf",):
+                    x = x["a"]
+                return x.get("k") == "Path" and str(x.get("res", "")).startswith("Ctor(Variant, Const)")
+            if not bins or not all(unit(m["a"]) or unit(m["b"]) for m in bins):
+                return False, "%s line %s enters the equality cycle with something other than a comparison against a unit variant" % (g["path"], ln)
+            n += len(bins)
+    if n == 0:
+        return False, "no entry into the equality cycle found"
+    return True, "%d entr%s, each a comparison with a unit variant" % (n, "y" if n == 1 else "ies")
+
+
 PRECONDITIONS = {
+    "eq_unit_compare": pre_eq_entered_by_unit_compare,
     "unparsed_filter": pre_unparsed_filter,
     "indent_affine": pre_indent_affine,
     "remove_after_kind_test": pre_remove_after_kind_test,
@@ -290,9 +325,6 @@ for fn_ in ("xml_dom::<XmlExpandedText as Node>::owner_document", "xml_dom::<Xml
     r("%s|index|index<-arg1#1" % fn_, "XmlExpandedText.data is never empty (index 0)", "expanded_text")
 
 # ---- clamped indices
-r("xml_info::XmlCData::split_at|vec-index|split_off<-collect#1", "`at` is min(offset, len) by the preceding if/else")
-r("xml_info::XmlText::split_at|vec-index|split_off<-collect#1", "`at` is min(offset, len) by the preceding if/else")
-r("xml_info::insert_char_at|vec-index|split_off<-collect#1", "`index` is min(offset, len) by the preceding if/else")
 r("xml_info::delete_char_range|vec-index|drain<-collect#1", "s = min(offset,len), e = min(s+count,len) >= s (overflow of s+count is a separate site)")
 
 # ---- child vectors: index comes from position() on the same vector
@@ -388,6 +420,10 @@ def scc(members, reason, pre=None):
     SCC["cycle-of:" + sorted(members)[0]] = (reason, pre)
 
 
+scc(["xml_info::<XmlAttribute as std::cmp::PartialEq>::eq", "xml_info::<XmlItem as std::cmp::PartialEq>::eq"],
+    "structural equality of information items recurses over the tree, but the library itself only ever enters it through a "
+    "comparison with a unit variant (`attr.value != XmlDeclarationAttDefault::Implied`), which is decided on the discriminants",
+    "eq_unit_compare")
 scc(["xml_dom::XmlNode::order"],
     "XmlNode::order recurses only for ExpandedText, on data[0], which is never an ExpandedText", "expanded_text")
 scc(["xml_dom::XmlNode::id"],
